@@ -255,6 +255,11 @@ func c01R1(p *Prog, r *Report) {
 			}
 			div := false
 			ast.Inspect(rhs, func(m ast.Node) bool {
+				if call, ok := m.(*ast.CallExpr); ok {
+					if f := callee(x.Info, call); f != nil && f.Pkg() != nil && f.Pkg().Path() == "math" && (f.Name() == "Round" || f.Name() == "Ceil" || f.Name() == "Floor" || f.Name() == "RoundToEven") {
+						return false // a rounded quotient is an exact integer again
+					}
+				}
 				if be, ok := m.(*ast.BinaryExpr); ok && be.Op == token.QUO {
 					if tv, ok := x.Info.Types[be]; ok && tv.Value == nil && !isIntegerType(tv.Type) {
 						div = true
@@ -824,6 +829,18 @@ func c01R4(p *Prog, r *Report) {
 	for k := range want {
 		if seen[k] == 0 {
 			r.Ob("counter:"+shortRoot(k), "-", false, "no accumulation of "+k+" found in Water")
+		}
+	}
+	// the scalar drain flux lives in the long-lived state: every read in the kernel must be preceded, on every
+	// path of the same call, by its (re)definition — otherwise a dry sub-step books the previous drainage again
+	n, stale, ok := staleReads(p, "hermes.Water", "GlobalVarsMain", "QDRAIN")
+	if !ok || n == 0 {
+		r.Ob("fresh:QDRAIN", "-", false, "no read of the drain flux found in the water kernel")
+	} else if len(stale) == 0 {
+		r.Ob("fresh:QDRAIN", "-", true, fmt.Sprintf("all %d reads of QDRAIN in Water are dominated by a store of the same call on every path", n))
+	} else {
+		for _, in := range stale {
+			r.Ob("fresh:QDRAIN", instrPos(p, in), false, "QDRAIN is read here on a path of Water that has not assigned it in this call: the value left by an earlier (wet) call is booked into the drain counter again although no water leaves storage")
 		}
 	}
 }
